@@ -368,7 +368,7 @@ def run(ctx, prop, relevant):
     scen = tc.simulate(ctx, "Ipam_mc", "Ipam_gen.cfg", num=16 if q else 160, depth=90)
     nscen = prepare_scenarios(scen)
     bins = go_build_tests(ctx, [PKG])
-    env = {"VERIF_SCEN": scen, "VERIF_RANDOM": "72" if q else "720", "VERIF_IPAM_ENV": ENV[prop]}
+    env = {"VERIF_SCEN": scen, "VERIF_RANDOM": "90" if q else "720", "VERIF_IPAM_ENV": ENV[prop]}
     traces = run_harness(ctx, bins[PKG], 16, env)
     rej = tc.validate_many(ctx, "Ipam_trace", trace_cfg(prop), [strip(t) for t in traces], max_reruns=16 if q else 160, chunk=40 if q else 50)
     assumed = set(x for x in os.environ.get("VERIF_IPAM_KNOWN", "").split(",") if x)
